@@ -175,8 +175,9 @@ pub fn run(ctx: &Ctx) {
         s(&["I   \u{2665}\u{2665}\u{2665} 36 and \u{663} and y\u{306}y\u{306} and \u{1f4a9}\u{1f4a9}."]),
         s(&["ab", "abb", "a", "AB", "Ab1 #"]),
         s(&["x-y", "a  b", "\\d+", "\u{1f4a9}", "\u{e9}\u{c9}"]),
+        s(&["a ", "b "]),
     ];
-    let file_only: Vec<Vec<String>> = vec![s(&["-x", "", "b b", "--"]), s(&["", ""]), s(&["a\tb", " ", "#"])];
+    let file_only: Vec<Vec<String>> = vec![s(&["-x", "", "b b", "--"]), s(&["", ""]), s(&["a\tb", " ", "#"]), s(&["x\u{a0}", "y\u{a0}"])];
     let dir = tmpdir();
     let uid = AtomicU64::new(0);
     let nflags = CLI_FLAGS.len() as u32;
